@@ -414,6 +414,41 @@ def c18_worker(res: Result, i: int, n: int) -> None:
             _damage(res, rng, raw, outcomes, {"origin": label, "bytes": raw}, 256 if not thorough else 768)
         if res.counters["batches"] % 37 == 1:
             res.sample({"origin": label, "bytes": raw, "records": len(b["records"])})
+    # batches that are not at the start of the stream: identity at a non-zero offset, and damage to a *later* batch of a stream
+    for k in range(i, 48 if not thorough else 1500, n):
+        rng = common.rng_for("C18", "offset", k)
+        first, _ = gen_batch(rng, False, 4)
+        b, cell = gen_batch(rng, False, 6)
+        lead = recref.encode_batch(first) if k % 2 else rng.randbytes(rng.choice((1, 16, 17, 61)))
+        raw = recref.encode_batch(b)
+        res.count("offset_batches")
+        src = io.BytesIO(lead + raw + b"\x55")
+        src.seek(len(lead))
+        try:
+            got = read_batch(src)
+            okay = src.tell() == len(lead) + len(raw) and got.base_offset == b["base_offset"] and len(got.records) == len(b["records"]) and got.crc == int.from_bytes(raw[17:21], "big")
+            why = f"returned base_offset={got.base_offset}, {len(got.records)} records, position {src.tell()} (expected {len(lead) + len(raw)})"
+        except Exception as exc:  # noqa: BLE001
+            okay, why = False, f"raised {exc!r}"
+        if not okay:
+            res.violation("offset-batch", f"a well-formed batch that starts at stream offset {len(lead)} was not read faithfully: {why}", {"stream": lead + raw, "offset": len(lead)})
+            continue
+        res.count("offset_batches_ok")
+        variants = [("magic", raw[:16] + bytes([m]) + raw[17:]) for m in (0, 1, 3, 255)]
+        variants += [("bitflip", raw[:p] + bytes([raw[p] ^ (1 << rng.randrange(8))]) + raw[p + 1:]) for p in (rng.randrange(17, len(raw)) for _ in range(24))]
+        variants += [("truncation", raw[:c]) for c in (rng.randrange(len(raw)) for _ in range(12))]
+        for kind, bad in variants:
+            s2 = io.BytesIO(lead + bad)
+            s2.seek(len(lead))
+            res.count("damaged_variants")
+            res.count("later_batch_damage")
+            try:
+                out = read_batch(s2)
+            except Exception as exc:  # noqa: BLE001
+                outcomes[f"later-{kind}:{type(exc).__name__}"] = outcomes.get(f"later-{kind}:{type(exc).__name__}", 0) + 1
+                continue
+            res.violation(f"damage-accepted:later-batch:{kind}", f"read_batch returned a batch for a damaged batch ({kind}) that follows {len(lead)} earlier bytes on the stream",
+                          {"stream": lead + bad, "offset": len(lead), "kind": kind, "returned": repr(out)[:1200]})
     # several batches back to back on one stream
     for k in range(i, 40 if not thorough else 2000, n):
         rng = common.rng_for("C18", "stream", k)
@@ -449,7 +484,7 @@ def run_c18(tier_: str) -> int:
     c = res.counters
     res.assumptions += ["reference batch encoder and CRC-32C as in C17", "damage outside [crc .. end] other than the magic byte is not claimed by the property and not probed"]
     floor_ok = c.get("batches", 0) >= 50 and c.get("bit_flips", 0) > 10000 and c.get("truncations", 0) > 1000 and c.get("magics", 0) > 1000 and \
-        (c.get("identity_strict_ok", 0) + c.get("identity_explained_by_D4", 0)) > 0 and c.get("stream_batches_ok", 0) > 0
+        (c.get("identity_strict_ok", 0) + c.get("identity_explained_by_D4", 0)) > 0 and c.get("stream_batches_ok", 0) > 0 and c.get("offset_batches_ok", 0) > 0
     return res.finish(c.get("batches", 0) + c.get("damaged_variants", 0) + c.get("streams", 0), int(res.coverage.get("distinct_batches", 0)),
                       "reference-encoded well-formed batches (generator of C17, also non-derived header fields) and the four real-broker fixtures: "
                       "read_batch must return every header field and record as encoded and write_batch must reproduce the bytes; then every single-bit "
